@@ -7,27 +7,27 @@ WORKERS = int(os.environ.get('VERIF_WORKERS', '14'))
 
 # property table: profile(s) to run, build flavours, run counts and wall caps per tier
 PROPS = {
-    'C01': dict(parts=[dict(profile='C01', flavor='asan', quick=5000, thorough=600000)], level='exploration'),
+    'C01': dict(parts=[dict(profile='C01', flavor='asan', quick=12000, thorough=600000)], level='exploration'),
     'C03': dict(parts=[dict(profile='C03', flavor='asan', quick=4000, thorough=300000)], level='exploration'),
-    'C05': dict(parts=[dict(profile='C05', flavor='asan', quick=5000, thorough=500000)], level='exploration'),
-    'C06': dict(parts=[dict(profile='C06', flavor='asan', quick=5000, thorough=500000)], level='exploration'),
-    'C07': dict(parts=[dict(profile='C07', flavor='asan', quick=4000, thorough=400000),
-                       dict(profile='C07B', flavor='asan', quick=3000, thorough=300000, modeb=True)], level='exploration'),
-    'C08': dict(parts=[dict(profile='C08', flavor='asan', quick=5000, thorough=500000)], level='exploration'),
-    'C09': dict(parts=[dict(profile='C09', flavor='asan', quick=5000, thorough=500000)], level='exploration'),
-    'C10': dict(parts=[dict(profile='C10', flavor='asan', quick=5000, thorough=500000)], level='exploration'),
-    'C11': dict(parts=[dict(profile='C11', flavor='tsan', quick=2500, thorough=200000, modeb=True),
-                       dict(profile='C11', flavor='asan', quick=2500, thorough=200000, modeb=True)], level='exploration'),
-    'C12': dict(parts=[dict(profile='C12', flavor='asan', quick=5000, thorough=500000)], level='exploration'),
-    'C13': dict(parts=[dict(profile='C13', flavor='asan', quick=5000, thorough=500000)], level='exploration'),
-    'C14': dict(parts=[dict(profile='C14', flavor='asan', quick=300, thorough=3000, enumerate=True, quick_args=['--max-subs', '500'], thorough_args=[])], level='fault_enumeration'),
-    'C16': dict(parts=[dict(profile='C16', flavor='asan', quick=4000, thorough=300000)], level='exploration'),
-    'C17': dict(parts=[dict(profile='C17', flavor='asan', quick=5000, thorough=500000)], level='exploration'),
+    'C05': dict(parts=[dict(profile='C05', flavor='asan', quick=12000, thorough=500000)], level='exploration'),
+    'C06': dict(parts=[dict(profile='C06', flavor='asan', quick=12000, thorough=500000)], level='exploration'),
+    'C07': dict(parts=[dict(profile='C07', flavor='asan', quick=10000, thorough=400000),
+                       dict(profile='C07B', flavor='asan', quick=6000, thorough=300000, modeb=True)], level='exploration'),
+    'C08': dict(parts=[dict(profile='C08', flavor='asan', quick=12000, thorough=500000)], level='exploration'),
+    'C09': dict(parts=[dict(profile='C09', flavor='asan', quick=15000, thorough=500000)], level='exploration'),
+    'C10': dict(parts=[dict(profile='C10', flavor='asan', quick=12000, thorough=500000)], level='exploration'),
+    'C11': dict(parts=[dict(profile='C11', flavor='tsan', quick=4000, thorough=200000, modeb=True),
+                       dict(profile='C11', flavor='asan', quick=4000, thorough=200000, modeb=True)], level='exploration'),
+    'C12': dict(parts=[dict(profile='C12', flavor='asan', quick=15000, thorough=500000)], level='exploration'),
+    'C13': dict(parts=[dict(profile='C13', flavor='asan', quick=15000, thorough=500000)], level='exploration'),
+    'C14': dict(parts=[dict(profile='C14', flavor='asan', quick=500, thorough=3000, enumerate=True, quick_args=['--max-subs', '500'], thorough_args=[])], level='fault_enumeration'),
+    'C16': dict(parts=[dict(profile='C16', flavor='asan', quick=20000, thorough=300000)], level='exploration'),
+    'C17': dict(parts=[dict(profile='C17', flavor='asan', quick=12000, thorough=500000)], level='exploration'),
     'C20': dict(parts=[dict(profile='C20', flavor='asan', quick=3000, thorough=250000),
                        dict(profile='C20', flavor='valgrind', quick=120, thorough=4000)], level='exploration'),
     'SMOKE': dict(parts=[dict(profile='SMOKE', flavor='asan', quick=500, thorough=5000)], level='exploration'),
 }
-QUICK_WALL = float(os.environ.get('VERIF_QUICK_WALL', '75'))
+QUICK_WALL = float(os.environ.get('VERIF_QUICK_WALL', '120'))
 THOROUGH_WALL = float(os.environ.get('VERIF_THOROUGH_WALL', '900'))
 
 COMPONENTS = [
@@ -290,6 +290,11 @@ def class_matches(target, classes):
     """Same violation class: identical oracle class, or for sanitizer deaths the same kind and leading frame."""
     if target in classes:
         return True
+    if target.startswith('san:tsan:'):
+        # which of several racing pairs on one schedule TSan reports first depends on its shadow-cell eviction, i.e. on heap
+        # addresses, which differ between a seed run and a replay-file run: any TSan report of the same kind reproduces it
+        tk = target.split(':')[1:3]
+        return any(c.startswith('san:tsan:') and c.split(':')[1:3] == tk for c in classes)
     if target.startswith('san:'):
         tk = target.split(':')[1:3]
         tf = target.split(':', 3)[3].split(',')[0].split('|')[0] if target.count(':') >= 3 else ''
